@@ -50,7 +50,21 @@ def _reloaded_twin(run, pending):
     how = run.rng.choice(['fromdict', 'fromdict permuted raw=True', 'fromjson permuted raw=True',
                           'fromjson bogus stored lattice ignore_lattice=True',
                           'fromdict of a later todict() after the caller scrambled an earlier one',
-                          'fresh context whose names are single characters and their concatenations'])
+                          'fresh context whose names are single characters and their concatenations']
+                         + (['the same context with its lattice from a pickle round trip', 'the same context with a deep copy of its lattice']
+                            if run.pid not in ('C11', 'C12') else []))
+    if how.startswith('the same context with'):
+        import pickle
+        with guard(run, 'twin context: ' + how, [pc.line, 'lattice']):
+            L0 = pc.ctx.lattice
+            if len(L0) > 150:
+                return
+            twin = copy.copy(pc)
+            twin.ctx = _ContextWithLattice(pc.ctx, pickle.loads(pickle.dumps(L0)) if 'pickle' in how else copy.deepcopy(L0))
+            twin.reloaded = True
+        run.count('twin context: ' + how)
+        yield tab, twin
+        return
     if how.startswith('fresh context'):
         # names such that a multi-character name is the concatenation of other names of the same kind ('a', 'b', 'ab', ...):
         # a str is an iterable of its characters, nothing may confuse the two readings
@@ -95,6 +109,29 @@ def _reloaded_twin(run, pending):
         twin.reloaded = True
     run.count('twin context: ' + how)
     yield tab, twin
+
+
+class _ContextWithLattice:
+    """The context of a check, except that `.lattice` is a given lattice object of the same context (restored from a pickle,
+    deep-copied): everything else is the original context."""
+
+    def __init__(self, ctx, lattice):
+        self.__dict__['_ctx'] = ctx
+        self.__dict__['lattice'] = lattice
+
+    def __getattr__(self, name):
+        return getattr(self.__dict__['_ctx'], name)
+
+    def __getitem__(self, key):
+        return self.__dict__['_ctx'][key]
+
+    def __eq__(self, other):
+        return self.__dict__['_ctx'] == getattr(other, '_ctx', other)
+
+    def __ne__(self, other):
+        return self.__dict__['_ctx'] != getattr(other, '_ctx', other)
+
+    __hash__ = None
 
 
 def permute_stored(rng, stored):
